@@ -1,6 +1,7 @@
 package rules
 
 import (
+	"go/types"
 	"go/token"
 	"strings"
 
@@ -27,24 +28,198 @@ func init() {
 }
 
 func runC17(e *Env) {
-	c17Chain(e)
-	c17PassSites(e)
-	c17RejectSites(e)
-	c17SkipSound(e)
-	c17Routing(e)
+	m := c17Resolve(e)
+	if m == nil {
+		return
+	}
+	c17Chain(e, m)
+	c17PassSites(e, m)
+	c17RejectSites(e, m)
+	c17SkipSound(e, m)
+	c17Routing(e, m)
 }
 
-func isGlobalRead(v ssa.Value, name string) bool {
+// mwModel: the parts of the middleware package by what they are. The exported
+// constructors (BasicAuth, TokenAuth, SetupGlobalMiddleware, Setup) and the
+// exported option types are the package's API; everything else - the helper
+// predicates, the failure writers, the package variables, the captured
+// variables - is found by type and by what it does.
+type mwModel struct {
+	e          *Env
+	pkg        *ssa.Package
+	setupGM    *ssa.Function
+	basic, tok *ssa.Function
+	gBasic     *ssa.Global // the configured basic credentials (*AuthBasic)
+	gToken     *ssa.Global // the configured token (*AuthToken)
+	gDefault   *ssa.Global // the unauthenticated default handler (http.Handler)
+	rejecters  map[*ssa.Function]bool
+	markerT    string // asserted type of the per-request authenticated marker
+}
+
+func c17Resolve(e *Env) *mwModel {
+	r := e.R
+	r.Rule("C17.anchors", "anchor resolution", "middleware package roles", 0)
+	m := &mwModel{e: e, rejecters: map[*ssa.Function]bool{}}
+	m.setupGM = e.Fn(mwRel, "SetupGlobalMiddleware")
+	m.basic = e.Fn(mwRel, "BasicAuth")
+	m.tok = e.Fn(mwRel, "TokenAuth")
+	if m.setupGM == nil || m.basic == nil || m.tok == nil {
+		return nil
+	}
+	m.pkg = m.setupGM.Package()
+	for _, mem := range m.pkg.Members {
+		g, ok := mem.(*ssa.Global)
+		if !ok {
+			continue
+		}
+		t := g.Type().(*types.Pointer).Elem()
+		switch {
+		case strings.HasSuffix(ir.NamedType(t), "middleware.AuthBasic"):
+			m.gBasic = g
+		case strings.HasSuffix(ir.NamedType(t), "middleware.AuthToken"):
+			m.gToken = g
+		case ir.NamedType(t) == "net/http.Handler":
+			m.gDefault = g
+		}
+	}
+	if m.gBasic == nil || m.gToken == nil || m.gDefault == nil {
+		r.Unknown("middleware package state", mwRel, "the package variables holding *AuthBasic, *AuthToken and the default http.Handler were not all found")
+		return nil
+	}
+	// the failure writers: functions of the package that answer 401
+	for _, f := range e.RepoFuncsSorted() {
+		if rootFn(f).Package() != m.pkg {
+			continue
+		}
+		for _, ci := range ir.CallsIn(f, func(c *ssa.CallCommon) bool { return c.IsInvoke() && c.Method.Name() == "WriteHeader" }) {
+			if k, isC := ir.ConstInt(ci.Common().Args[0]); isC && k == 401 {
+				m.rejecters[f] = true
+			}
+		}
+	}
+	return m
+}
+
+func (m *mwModel) isGlobal(v ssa.Value, g *ssa.Global) bool {
 	v = ir.Resolve(v)
-	if g, ok := v.(*ssa.Global); ok {
-		return g.Name() == name
+	if x, ok := v.(*ssa.Global); ok {
+		return x == g
 	}
 	u, ok := v.(*ssa.UnOp)
 	if !ok || u.Op != token.MUL {
 		return false
 	}
-	g, ok := u.X.(*ssa.Global)
-	return ok && g.Name() == name
+	x, ok := u.X.(*ssa.Global)
+	return ok && x == g
+}
+
+// handlerParam: v is (a captured copy of) an http.Handler parameter of an
+// enclosing function - the `next` of a middleware, whatever it is called.
+func handlerParam(v ssa.Value) (*ssa.Parameter, bool) {
+	p, ok := ir.Resolve(v).(*ssa.Parameter)
+	if !ok || ir.NamedType(p.Type()) != "net/http.Handler" {
+		return nil, false
+	}
+	return p, true
+}
+
+// passCalls: the calls of h that hand the request on to the wrapped handler.
+func passCalls(h *ssa.Function) []ssa.CallInstruction {
+	return ir.CallsIn(h, func(c *ssa.CallCommon) bool {
+		if !c.IsInvoke() || c.Method.Name() != "ServeHTTP" {
+			return false
+		}
+		_, ok := handlerParam(c.Value)
+		return ok
+	})
+}
+
+// rejectCalls: the calls of h that answer 401 (a failure writer of the package,
+// or WriteHeader(401) itself).
+func (m *mwModel) rejectCalls(h *ssa.Function) []ssa.CallInstruction {
+	return ir.CallsIn(h, func(c *ssa.CallCommon) bool {
+		if g := c.StaticCallee(); g != nil && m.rejecters[g] {
+			return true
+		}
+		if c.IsInvoke() && c.Method.Name() == "WriteHeader" {
+			k, isC := ir.ConstInt(c.Args[0])
+			return isC && k == 401
+		}
+		return false
+	})
+}
+
+// fromAuthHeader: v is (a part of) the request's Authorization header, through
+// the string helpers and through helpers of the package that return it.
+func (m *mwModel) fromAuthHeader(v ssa.Value) bool {
+	var walk func(v ssa.Value, d int) bool
+	walk = func(v ssa.Value, d int) bool {
+		if d > 10 {
+			return false
+		}
+		v = ir.Deep(v)
+		switch x := v.(type) {
+		case *ssa.Phi:
+			for _, ed := range x.Edges {
+				if !walk(ed, d+1) {
+					return false
+				}
+			}
+			return len(x.Edges) > 0
+		case *ssa.UnOp:
+			if x.Op == token.MUL {
+				return walk(x.X, d+1)
+			}
+		case *ssa.IndexAddr:
+			return walk(x.X, d+1)
+		case *ssa.Index:
+			return walk(x.X, d+1)
+		case *ssa.Slice:
+			return walk(x.X, d+1)
+		case *ssa.Convert:
+			return walk(x.X, d+1)
+		case *ssa.Call:
+			if ir.IsCallTo(&x.Call, "(net/http.Header).Get") {
+				return true
+			}
+			if ir.IsCallTo(&x.Call, "strings.Split", "strings.SplitN", "strings.Fields", "strings.TrimPrefix", "strings.TrimSpace") {
+				return walk(x.Call.Args[0], d+1)
+			}
+			if g := x.Call.StaticCallee(); g != nil && rootFn(g).Package() == m.pkg && g.Blocks != nil {
+				n := 0
+				for _, b := range g.Blocks {
+					if rt, ok := b.Instrs[len(b.Instrs)-1].(*ssa.Return); ok && len(rt.Results) == 1 {
+						n++
+						if !walk(rt.Results[0], d+1) {
+							return false
+						}
+					}
+				}
+				return n > 0
+			}
+		}
+		return false
+	}
+	return walk(v, 0)
+}
+
+// expandAt: the ways of reaching an instruction of the handler closure, each as
+// a conjunction in which the package's boolean helpers are replaced by their own
+// conditions.
+func (m *mwModel) expandAt(h *ssa.Function, in ssa.Instruction) ([][]ir.NLit, bool) {
+	e := m.e
+	ff := e.Facts(h)
+	dnf, ok := ir.ReachingCondition(h.Blocks[0], in.Block(), 32)
+	if !ok || len(dnf) == 0 {
+		return nil, false
+	}
+	var out [][]ir.NLit
+	for _, cj := range dnf {
+		for _, conj := range ff.ExpandDNFRegion(h.Blocks[0], []ir.Lit(cj)) {
+			out = append(out, e.expandHelperCalls(ir.NormalizeAll(conj), 0)...)
+		}
+	}
+	return out, len(out) > 0 && len(out) <= 128
 }
 
 // wrapperCall: v = (F(args...))(inner) where F is the named middleware constructor.
@@ -60,16 +235,44 @@ func wrapperCall(v ssa.Value, ctor *ssa.Function) (outer, ctorCall *ssa.Call, ok
 	return c, cc, true
 }
 
-func c17Chain(e *Env) {
+// through: the value a call of a single-call-site handler→handler helper of the
+// package stands for (the helper's returned value), repeatedly.
+func (m *mwModel) through(v ssa.Value) ssa.Value {
+	for d := 0; d < 6; d++ {
+		v = ir.Deep(v)
+		c, ok := v.(*ssa.Call)
+		if !ok {
+			return v
+		}
+		g := c.Call.StaticCallee()
+		if g == nil || rootFn(g).Package() != m.pkg || g.Blocks == nil || ir.UniqueSite(g) == nil {
+			return v
+		}
+		var rets []ssa.Value
+		for _, b := range g.Blocks {
+			if rt, isR := b.Instrs[len(b.Instrs)-1].(*ssa.Return); isR && len(rt.Results) == 1 {
+				rets = append(rets, RetVals(rt, 0)...)
+			}
+		}
+		if len(rets) != 1 {
+			return v
+		}
+		// the router and other wrappers that build a new handler are not looked through
+		if _, isMI := ir.Resolve(rets[0]).(*ssa.MakeInterface); isMI {
+			return v
+		}
+		if _, isCT := ir.Resolve(rets[0]).(*ssa.ChangeType); isCT {
+			return v
+		}
+		v = rets[0]
+	}
+	return v
+}
+
+func c17Chain(e *Env, m *mwModel) {
 	r := e.R
 	r.Rule("C17.chain", "VF", "prefixChecker(BasicAuth?(TokenAuth?(…handler)))", 4)
-	fn := e.Fn(mwRel, "SetupGlobalMiddleware")
-	basic := e.Fn(mwRel, "BasicAuth")
-	tok := e.Fn(mwRel, "TokenAuth")
-	pc := e.Fn(mwRel, "prefixChecker")
-	if fn == nil || basic == nil || tok == nil || pc == nil {
-		return
-	}
+	fn, basic, tok := m.setupGM, m.basic, m.tok
 	// returned value
 	var ret ssa.Value
 	for _, b := range fn.Blocks {
@@ -80,21 +283,21 @@ func c17Chain(e *Env) {
 		}
 	}
 	top, isTop := ret.(*ssa.Call)
-	if !isTop || top.Call.StaticCallee() != pc {
+	if !isTop || top.Call.StaticCallee() == nil || !m.isRouter(top.Call.StaticCallee()) {
 		r.Bad("SetupGlobalMiddleware: returns prefixChecker(chain)", e.Pos(fn.Pos()), "the returned handler is not the prefix router around the authenticated chain: "+e.C.Render(ret))
 		return
 	}
 	r.OK("SetupGlobalMiddleware: returns prefixChecker(chain)", e.InstrPos(top), "")
-	// peel one optional wrapper layer guarded by a global != nil
-	peel := func(v ssa.Value, ctor *ssa.Function, global, what string) (inner ssa.Value) {
-		v = ir.Resolve(v)
-		cons := "SetupGlobalMiddleware: " + what + " wraps the chain exactly under " + global + " != nil"
-		isG := func(x ssa.Value) bool { return isGlobalRead(x, global) }
+	// peel one optional wrapper layer guarded by a package variable != nil
+	peel := func(v ssa.Value, ctor *ssa.Function, global *ssa.Global, gname, what string) (inner ssa.Value) {
+		v = m.through(v)
+		cons := "SetupGlobalMiddleware: " + what + " wraps the chain exactly under " + gname + " != nil"
+		isG := func(x ssa.Value) bool { return m.isGlobal(x, global) }
 		otherAuth := func(lits []ir.NLit) bool {
 			for _, l := range lits {
 				if l.Kind == "cmp" && ir.IsNilConst(l.Y) {
-					for _, g := range []string{"authBasic", "authToken"} {
-						if g != global && isGlobalRead(l.X, g) {
+					for _, g := range []*ssa.Global{m.gBasic, m.gToken} {
+						if g != global && m.isGlobal(l.X, g) {
 							return true
 						}
 					}
@@ -122,13 +325,14 @@ func c17Chain(e *Env) {
 				// configured secret arguments
 				switch what {
 				case "TokenAuth":
-					r.Check(e.IsFieldRead(cc.Call.Args[1], nil, "Token") && isGlobalRead(pathRoot(e, cc.Call.Args[1]), "authToken"),
+					r.Check(e.IsFieldRead(cc.Call.Args[1], nil, "Token") && m.isGlobal(pathRoot(e, cc.Call.Args[1]), m.gToken),
 						"SetupGlobalMiddleware: TokenAuth gets authToken.Token", e.InstrPos(cc), "the token middleware is not given the configured token")
 				case "BasicAuth":
 					okCreds := false
 					if mm, isMM := ir.Resolve(cc.Call.Args[1]).(*ssa.MakeMap); isMM {
 						for _, ref := range *mm.Referrers() {
-							if mu, isMU := ref.(*ssa.MapUpdate); isMU && e.IsFieldRead(mu.Key, nil, "Username") && e.IsFieldRead(mu.Value, nil, "Password") {
+							if mu, isMU := ref.(*ssa.MapUpdate); isMU && e.IsFieldRead(mu.Key, nil, "Username") && e.IsFieldRead(mu.Value, nil, "Password") &&
+								m.isGlobal(pathRoot(e, mu.Key), m.gBasic) && m.isGlobal(pathRoot(e, mu.Value), m.gBasic) {
 								okCreds = true
 							}
 						}
@@ -142,13 +346,13 @@ func c17Chain(e *Env) {
 			}
 		}
 		r.Check(okWrap && okPlain, cons, e.InstrPos(ph.Block().Instrs[len(ph.Block().Instrs)-1]),
-			what+" does not protect the chain exactly when "+global+" is configured (missing, or made dependent on the other auth method: with both configured a request could skip one check and never meet the other)")
+			what+" does not protect the chain exactly when "+gname+" is configured (missing, or made dependent on the other auth method: with both configured a request could skip one check and never meet the other)")
 		return inner
 	}
 	x := top.Call.Args[0]
-	y := peel(x, basic, "authBasic", "BasicAuth")
+	y := peel(x, basic, m.gBasic, "authBasic", "BasicAuth")
 	if y != nil {
-		z := peel(y, tok, "authToken", "TokenAuth")
+		z := peel(y, tok, m.gToken, "authToken", "TokenAuth")
 		_ = z
 	}
 	// the API handler parameter is used exactly once
@@ -193,6 +397,22 @@ func c17Chain(e *Env) {
 	r.Check(okS, "restapi.setupGlobalMiddleware: delegates to middleware.SetupGlobalMiddleware(handler)", e.Pos(sgm.Pos()), "the global middleware hook does not install the authenticated chain")
 }
 
+// isRouter: f (with the helpers of the package it is made of) serves some
+// requests with the package's default handler: the prefix router.
+func (m *mwModel) isRouter(f *ssa.Function) bool {
+	if rootFn(f).Package() != m.pkg {
+		return false
+	}
+	for _, g := range m.e.withPkgHelpers(f) {
+		if len(ir.CallsIn(g, func(c *ssa.CallCommon) bool {
+			return c.IsInvoke() && c.Method.Name() == "ServeHTTP" && m.isGlobal(c.Value, m.gDefault)
+		})) > 0 {
+			return true
+		}
+	}
+	return false
+}
+
 func pathRoot(e *Env, v ssa.Value) ssa.Value {
 	p, ok := e.C.PathOf(v)
 	if !ok {
@@ -212,23 +432,6 @@ func innermostHandler(f *ssa.Function) *ssa.Function {
 	return best
 }
 
-func nextCalls(h *ssa.Function) []ssa.CallInstruction {
-	return ir.CallsIn(h, func(c *ssa.CallCommon) bool {
-		if !c.IsInvoke() || c.Method.Name() != "ServeHTTP" {
-			return false
-		}
-		v := ir.Resolve(c.Value)
-		if fv, ok := v.(*ssa.FreeVar); ok && fv.Name() == "next" {
-			return true
-		}
-		if p, ok := v.(*ssa.Parameter); ok && p.Name() == "next" {
-			return true
-		}
-		return false
-	})
-}
-
-// ctcEq1 finds a literal ConstantTimeCompare(a,b) == 1 and returns the call.
 // c17RejectSites: the dual of pass-sites, for the half "a request carrying the
 // configured credentials in standard form always passes". Every way of reaching
 // a 401 answer in an auth closure must carry one of the licensed reasons for
@@ -237,60 +440,44 @@ func nextCalls(h *ssa.Function) []ssa.CallInstruction {
 // the constant-time comparison with the configured secret failed. Any other
 // reason (a syntax filter on the presented secret, a length cap, ...) rejects
 // some configured secret presented in standard form.
-func c17RejectSites(e *Env) {
+func c17RejectSites(e *Env, m *mwModel) {
 	r := e.R
-	r.Rule("C17.reject-sites", "RC", "every way to a 401 carries a licensed reason", 4)
-	for _, ctor := range []struct{ name, helper string }{{"BasicAuth", "basicAuthFailed"}, {"TokenAuth", "tokenAuthFailed"}} {
-		fn := e.FnQuiet(mwRel, ctor.name)
-		if fn == nil {
-			continue
-		}
-		h := innermostHandler(fn)
+	r.Rule("C17.reject-sites", "RC", "every way to a 401 carries a licensed reason", 2)
+	for _, ctor := range []struct {
+		name string
+		fn   *ssa.Function
+	}{{"BasicAuth", m.basic}, {"TokenAuth", m.tok}} {
+		h := innermostHandler(ctor.fn)
 		if h == nil {
 			continue
 		}
-		ff := e.Facts(h)
-		for _, ci := range ir.CallsIn(h, func(c *ssa.CallCommon) bool { return c.StaticCallee() != nil && c.StaticCallee().Name() == ctor.helper }) {
-			dnf, ok := ir.ReachingCondition(h.Blocks[0], ci.Block(), 32)
+		for _, ci := range m.rejectCalls(h) {
+			alts, ok := m.expandAt(h, ci)
 			if !ok {
 				r.Unknown(ctor.name+": reasons for answering 401", e.InstrPos(ci), "reaching condition too large")
 				continue
 			}
 			var bad []string
-			for _, cj := range dnf {
-				for _, conj := range ff.ExpandDNFRegion(h.Blocks[0], []ir.Lit(cj)) {
-					lits := ir.NormalizeAll(conj)
-					licensed := false
-					for _, l := range lits {
-						if c17LicensedReject(e, l) {
-							licensed = true
-						}
-					}
-					if !licensed {
-						bad = append(bad, "{"+strings.Join(e.RenderN(lits), " ; ")+"}")
+			for _, lits := range alts {
+				licensed := false
+				for _, l := range lits {
+					if c17LicensedReject(e, m, l) {
+						licensed = true
 					}
 				}
+				if !licensed {
+					bad = append(bad, "{"+strings.Join(e.RenderN(lits), " ; ")+"}")
+				}
 			}
-			r.Check(len(dnf) > 0 && len(bad) == 0, ctor.name+": 401 only for an unparsable header, an empty field, an unknown user or a failed comparison with the configured secret", e.InstrPos(ci),
+			r.Check(len(bad) == 0, ctor.name+": 401 only for an unparsable header, an empty field, an unknown user or a failed comparison with the configured secret", e.InstrPos(ci),
 				"a request is rejected for a reason that is not a mismatch with the configured credentials: some configured secret, presented in the standard form, is answered 401 (the handler is never reached)",
 				"ways to this 401 without a licensed reason: "+strings.Join(bad, " | "))
 		}
 	}
 }
 
-func c17LicensedReject(e *Env, l ir.NLit) bool {
-	fromHeaderSplit := func(v ssa.Value) bool {
-		fl := &ir.Flow{C: e.C, Through: func(c *ssa.Call) []int {
-			if ir.IsCallTo(&c.Call, "strings.Split", "strings.SplitN", "strings.Fields", "strings.TrimPrefix", "strings.TrimSpace") {
-				return []int{0}
-			}
-			return nil
-		}, Source: func(x ssa.Value) bool {
-			cc, isC := x.(*ssa.Call)
-			return isC && ir.IsCallTo(&cc.Call, "(net/http.Header).Get")
-		}}
-		return fl.Any(v)
-	}
+func c17LicensedReject(e *Env, m *mwModel, l ir.NLit) bool {
+	fromHeaderSplit := m.fromAuthHeader
 	switch l.Kind {
 	case "val":
 		if l.Pol {
@@ -360,294 +547,377 @@ func stripBytes(v ssa.Value) ssa.Value {
 	return v
 }
 
-func c17PassSites(e *Env) {
+
+func c17PassSites(e *Env, m *mwModel) {
 	r := e.R
 	r.Rule("C17.pass-sites", "DCS", "every pass site is licensed", 4)
-	basic := e.Fn(mwRel, "BasicAuth")
-	tok := e.Fn(mwRel, "TokenAuth")
-	skipB := e.FnQuiet(mwRel, "skipBasicAuth")
-	skipT := e.FnQuiet(mwRel, "skipTokenAuth")
-	if basic == nil || tok == nil {
-		return
-	}
-	fail := func(h *ssa.Function, helper string) {
-		// C17.failed-is-401 part: after the failure helper no next call
-		for _, ci := range ir.CallsIn(h, func(c *ssa.CallCommon) bool { return c.StaticCallee() != nil && c.StaticCallee().Name() == helper }) {
+	basic, tok := m.basic, m.tok
+	fail := func(h *ssa.Function) {
+		// C17.failed-is-401 part: after a 401 answer no pass
+		passes := passCalls(h)
+		for _, ci := range m.rejectCalls(h) {
 			bad, _ := ir.Bypass(ci, nil, ir.PathQuery{Bad: func(in ssa.Instruction) bool {
-				for _, nc := range nextCalls(h) {
+				for _, nc := range passes {
 					if nc == in {
 						return true
 					}
 				}
 				return false
 			}})
-			r.Check(bad == nil, shortName(h)+": no pass after "+helper, e.InstrPos(ci), "the request is passed on after the 401 answer was written")
+			r.Check(bad == nil, shortName(h)+": no pass after the 401 answer", e.InstrPos(ci), "the request is passed on after the 401 answer was written")
 		}
+	}
+	isBasicAuthRes := func(v ssa.Value, idx int) bool {
+		ex, isE := ir.Deep(v).(*ssa.Extract)
+		if !isE || ex.Index != idx {
+			return false
+		}
+		cc, isC := ex.Tuple.(*ssa.Call)
+		return isC && ir.IsCallTo(&cc.Call, "(*net/http.Request).BasicAuth")
 	}
 	// ---- BasicAuth
 	if h := innermostHandler(basic); h != nil {
-		for _, nc := range nextCalls(h) {
-			lits := e.DCS(nc)
+		for _, nc := range passCalls(h) {
 			pos := e.InstrPos(nc)
-			if skipB != nil && HasVal(lits, IsCallOf(skipB), true) {
-				r.OK("BasicAuth: pass under skipBasicAuth(header)", pos, "licensed skip: a token check follows (C17.skip-sound)")
+			alts, okA := m.expandAt(h, nc)
+			if !okA {
+				r.Unknown("BasicAuth: conditions of a pass site", pos, "reaching condition too large")
 				continue
 			}
-			c := ctcEq1(lits)
-			ok, why := c != nil, "the request is passed on without a successful constant-time comparison of the presented password with the configured one"
-			if ok {
-				a, b := stripBytes(c.Call.Args[0]), stripBytes(c.Call.Args[1])
-				// presented: from r.BasicAuth(); configured: comma-ok lookup in creds with ok tested
-				presented := func(v ssa.Value) bool {
-					ex, isE := v.(*ssa.Extract)
-					if !isE {
-						return false
-					}
-					cc, isC := ex.Tuple.(*ssa.Call)
-					return isC && ir.IsCallTo(&cc.Call, "(*net/http.Request).BasicAuth") && ex.Index == 1
+			okAll, why := true, ""
+			var factsBad []string
+			nSkip, nCmp := 0, 0
+			for _, lits := range alts {
+				if m.basicSkip(lits) {
+					nSkip++
+					continue
 				}
-				configured := func(v ssa.Value) (bool, string) {
-					ex, isE := v.(*ssa.Extract)
-					if isE {
-						if lk, isL := ex.Tuple.(*ssa.Lookup); isL && lk.CommaOk && ex.Index == 0 {
-							// ok tested true
-							okTested := HasVal(lits, func(x ssa.Value) bool {
-								e2, isE2 := ir.Resolve(x).(*ssa.Extract)
-								return isE2 && e2.Tuple == ssa.Value(lk) && e2.Index == 1
-							}, true)
-							// key: the presented user
-							keyOK := false
-							if kx, isK := ir.Resolve(lk.Index).(*ssa.Extract); isK {
-								if cc, isC := kx.Tuple.(*ssa.Call); isC && ir.IsCallTo(&cc.Call, "(*net/http.Request).BasicAuth") && kx.Index == 0 {
-									keyOK = true
+				c := ctcEq1(lits)
+				ok, w := c != nil, "the request is passed on without a successful constant-time comparison of the presented password with the configured one"
+				if ok {
+					a, b := stripBytes(c.Call.Args[0]), stripBytes(c.Call.Args[1])
+					presented := func(v ssa.Value) bool { return isBasicAuthRes(v, 1) }
+					configured := func(v ssa.Value) (bool, string) {
+						v = ir.Deep(v)
+						ex, isE := v.(*ssa.Extract)
+						if isE {
+							if lk, isL := ex.Tuple.(*ssa.Lookup); isL && lk.CommaOk && ex.Index == 0 {
+								okTested := HasVal(lits, func(x ssa.Value) bool {
+									e2, isE2 := ir.Resolve(x).(*ssa.Extract)
+									return isE2 && e2.Tuple == ssa.Value(lk) && e2.Index == 1
+								}, true)
+								keyOK := isBasicAuthRes(lk.Index, 0)
+								// the map: the constructor's credentials parameter
+								mapOK := false
+								if p := paramOf(lk.X, basic); p != nil {
+									mapOK = true
 								}
+								if !okTested {
+									return false, "the configured password is looked up for the presented user but the lookup's ok result is not required: an unconfigured user yields the empty password, which an empty presented password matches"
+								}
+								if !mapOK {
+									return false, "the password is not looked up in the credentials the middleware was constructed with"
+								}
+								return keyOK, "the credential lookup is not keyed by the presented user"
 							}
-							if !okTested {
-								return false, "the configured password is looked up for the presented user but the lookup's ok result is not required: an unconfigured user yields the empty password, which an empty presented password matches"
-							}
-							return keyOK, "the credential lookup is not keyed by the presented user"
 						}
+						if lk, isL := v.(*ssa.Lookup); isL && !lk.CommaOk {
+							return false, "the configured password is read with a plain map lookup: for an unconfigured user it is the empty string, which an empty presented password matches"
+						}
+						return false, "the second operand of the comparison is not the configured password: " + e.C.Render(v)
 					}
-					if lk, isL := v.(*ssa.Lookup); isL && !lk.CommaOk {
-						return false, "the configured password is read with a plain map lookup: for an unconfigured user it is the empty string, which an empty presented password matches"
+					switch {
+					case presented(a):
+						ok, w = configured(b)
+					case presented(b):
+						ok, w = configured(a)
+					default:
+						ok, w = false, "neither operand of the comparison is the password presented in the request"
 					}
-					return false, "the second operand of the comparison is not the configured password: " + e.C.Render(v)
+					if ok && !HasVal(lits, func(x ssa.Value) bool { return isBasicAuthRes(x, 2) }, true) {
+						ok, w = false, "the ok result of r.BasicAuth() is not required"
+					}
 				}
-				switch {
-				case presented(a):
-					ok, why = configured(b)
-				case presented(b):
-					ok, why = configured(a)
-				default:
-					ok, why = false, "neither operand of the comparison is the password presented in the request"
-				}
-				// r.BasicAuth() ok
-				if ok && !HasVal(lits, func(x ssa.Value) bool {
-					ex, isE := ir.Resolve(x).(*ssa.Extract)
-					if !isE || ex.Index != 2 {
-						return false
-					}
-					cc, isC := ex.Tuple.(*ssa.Call)
-					return isC && ir.IsCallTo(&cc.Call, "(*net/http.Request).BasicAuth")
-				}, true) {
-					ok, why = false, "the ok result of r.BasicAuth() is not required"
+				if ok {
+					nCmp++
+				} else {
+					okAll, why = false, w
+					factsBad = append(factsBad, "{"+strings.Join(e.RenderN(lits), " ; ")+"}")
 				}
 			}
-			r.Check(ok, "BasicAuth: final pass under ok ∧ user configured ∧ ConstantTimeCompare(pass, configured)==1", pos, why, e.FactsStr("dominating conditions: ", lits))
+			cons := "BasicAuth: final pass under ok ∧ user configured ∧ ConstantTimeCompare(pass, configured)==1"
+			if okAll && nCmp == 0 && nSkip > 0 {
+				cons = "BasicAuth: pass under the licensed skip (a token is configured and a Bearer header is presented)"
+			}
+			r.Check(okAll, cons, pos, why, "unlicensed ways to this pass: "+strings.Join(factsBad, " | "))
 		}
-		fail(h, "basicAuthFailed")
+		fail(h)
 	} else {
 		r.Unknown("BasicAuth: handler closure", e.Pos(basic.Pos()), "not found")
 	}
 	// ---- TokenAuth
 	if h := innermostHandler(tok); h != nil {
-		for _, nc := range nextCalls(h) {
-			lits := e.DCS(nc)
+		for _, nc := range passCalls(h) {
 			pos := e.InstrPos(nc)
-			if skipT != nil && HasVal(lits, IsCallOf(skipT), true) {
-				r.OK("TokenAuth: pass under skipTokenAuth(request)", pos, "licensed skip: basic auth already succeeded (C17.skip-sound)")
+			alts, okA := m.expandAt(h, nc)
+			if !okA {
+				r.Unknown("TokenAuth: conditions of a pass site", pos, "reaching condition too large")
 				continue
 			}
-			c := ctcEq1(lits)
-			ok, why := c != nil, "the request is passed on without a successful constant-time comparison of the presented token with the configured one"
-			if ok {
-				a, b := stripBytes(c.Call.Args[0]), stripBytes(c.Call.Args[1])
-				isCfg := func(v ssa.Value) bool {
-					if fv, isFV := v.(*ssa.FreeVar); isFV {
-						return fv.Name() == "token"
-					}
-					// the configured token: the string parameter of the middleware constructor
-					if p, isP := v.(*ssa.Parameter); isP && p.Parent() == tok && len(tok.Params) == 2 {
-						return p == tok.Params[1]
-					}
-					return false
+			okAll, why := true, ""
+			var factsBad []string
+			nSkip, nCmp := 0, 0
+			for _, lits := range alts {
+				if t := m.markerSkip(lits); t != "" {
+					m.markerT = t
+					nSkip++
+					continue
 				}
-				fromHeader := func(v ssa.Value) bool {
-					fl := &ir.Flow{C: e.C, Through: func(c *ssa.Call) []int {
-						if ir.IsCallTo(&c.Call, "strings.Split", "strings.Fields", "strings.TrimPrefix", "strings.TrimSpace") {
-							return []int{0}
-						}
-						return nil
-					}, Source: func(x ssa.Value) bool {
-						cc, isC := x.(*ssa.Call)
-						return isC && ir.IsCallTo(&cc.Call, "(net/http.Header).Get")
-					}}
-					return fl.Any(v)
-				}
-				var pres ssa.Value
-				switch {
-				case isCfg(b) && fromHeader(a):
-					pres = a
-				case isCfg(a) && fromHeader(b):
-					pres = b
-				default:
-					ok, why = false, "the comparison is not between the Authorization header's token and the configured token"
-				}
+				c := ctcEq1(lits)
+				ok, w := c != nil, "the request is passed on without a successful constant-time comparison of the presented token with the configured one"
 				if ok {
-					nonEmpty := false
-					for _, l := range lits {
-						if l.Kind == "cmp" && l.Op == token.NEQ && ir.Resolve(l.X) == pres {
-							if s, isS := ir.ConstString(l.Y); isS && s == "" {
-								nonEmpty = true
+					a, b := stripBytes(c.Call.Args[0]), stripBytes(c.Call.Args[1])
+					isCfg := func(v ssa.Value) bool {
+						// the configured token: the string parameter of the middleware constructor
+						p := paramOf(v, tok)
+						return p != nil && len(tok.Params) == 2 && p == tok.Params[1]
+					}
+					var pres ssa.Value
+					switch {
+					case isCfg(b) && m.fromAuthHeader(a):
+						pres = a
+					case isCfg(a) && m.fromAuthHeader(b):
+						pres = b
+					default:
+						ok, w = false, "the comparison is not between the Authorization header's token and the configured token"
+					}
+					if ok {
+						nonEmpty := false
+						for _, l := range lits {
+							if l.Kind == "cmp" && l.Op == token.NEQ && sameHeaderPart(e, l.X, pres) {
+								if s, isS := ir.ConstString(l.Y); isS && s == "" {
+									nonEmpty = true
+								}
 							}
 						}
-					}
-					if !nonEmpty {
-						ok, why = false, "an empty presented token is not rejected before the comparison (an empty configured token would match)"
+						if !nonEmpty {
+							ok, w = false, "an empty presented token is not rejected before the comparison (an empty configured token would match)"
+						}
 					}
 				}
+				if ok {
+					nCmp++
+				} else {
+					okAll, why = false, w
+					factsBad = append(factsBad, "{"+strings.Join(e.RenderN(lits), " ; ")+"}")
+				}
 			}
-			r.Check(ok, "TokenAuth: final pass under well-formed header ∧ token!=\"\" ∧ ConstantTimeCompare(token, configured)==1", pos, why, e.FactsStr("dominating conditions: ", lits))
+			cons := "TokenAuth: final pass under well-formed header ∧ token!=\"\" ∧ ConstantTimeCompare(token, configured)==1"
+			if okAll && nCmp == 0 && nSkip > 0 {
+				cons = "TokenAuth: pass under the licensed skip (the per-request authenticated marker)"
+			}
+			r.Check(okAll, cons, pos, why, "unlicensed ways to this pass: "+strings.Join(factsBad, " | "))
 		}
-		fail(h, "tokenAuthFailed")
+		fail(h)
 	} else {
 		r.Unknown("TokenAuth: handler closure", e.Pos(tok.Pos()), "not found")
 	}
-	// failure helpers write 401
-	r.Rule("C17.failed-is-401", "VF", "failure helpers answer 401", 2)
-	for _, name := range []string{"basicAuthFailed", "tokenAuthFailed"} {
-		f := e.Fn(mwRel, name)
-		if f == nil {
+	// failure writers answer 401: the reject sites of both closures exist
+	r.Rule("C17.failed-is-401", "VF", "failed authentication is answered 401", 2)
+	for _, ctor := range []struct {
+		name string
+		fn   *ssa.Function
+	}{{"BasicAuth", basic}, {"TokenAuth", tok}} {
+		h := innermostHandler(ctor.fn)
+		if h == nil {
 			continue
 		}
-		ok := false
-		for _, ci := range ir.CallsIn(f, func(c *ssa.CallCommon) bool { return c.IsInvoke() && c.Method.Name() == "WriteHeader" }) {
-			if k, isC := ir.ConstInt(ci.Common().Args[0]); isC && k == 401 {
-				ok = true
+		// every way through the closure ends in a pass or in a 401 answer
+		passes := passCalls(h)
+		rejects := m.rejectCalls(h)
+		isEnd := func(in ssa.Instruction) bool {
+			for _, x := range passes {
+				if x == in {
+					return true
+				}
 			}
+			for _, x := range rejects {
+				if x == in {
+					return true
+				}
+			}
+			return false
 		}
-		r.Check(ok, name+": WriteHeader(401)", e.Pos(f.Pos()), "a failed authentication is not answered with 401")
+		bad, _ := ir.Bypass(nil, h.Blocks[0], ir.PathQuery{Stop: isEnd, Bad: ir.IsReturn})
+		r.Check(bad == nil && len(rejects) > 0, ctor.name+": a request that is not passed on is answered 401", e.Pos(h.Pos()), "a failed authentication is not answered with 401")
 	}
 }
 
-func c17SkipSound(e *Env) {
+// sameHeaderPart: both values read the same element of the same split header.
+func sameHeaderPart(e *Env, a, b ssa.Value) bool {
+	a, b = ir.Deep(a), ir.Deep(b)
+	if a == b {
+		return true
+	}
+	ua, ok1 := a.(*ssa.UnOp)
+	ub, ok2 := b.(*ssa.UnOp)
+	if !ok1 || !ok2 {
+		return false
+	}
+	ia, ok1 := ua.X.(*ssa.IndexAddr)
+	ib, ok2 := ub.X.(*ssa.IndexAddr)
+	if !ok1 || !ok2 || ir.Deep(ia.X) != ir.Deep(ib.X) {
+		return false
+	}
+	ka, ok1 := ir.ConstInt(ia.Index)
+	kb, ok2 := ir.ConstInt(ib.Index)
+	return ok1 && ok2 && ka == kb
+}
+
+// basicSkip: the conjunction licenses skipping basic auth - a token is
+// configured (so a token check follows in the chain) and the request presents a
+// Bearer Authorization header.
+func (m *mwModel) basicSkip(lits []ir.NLit) bool {
+	tokCfg := HasNilCmp(lits, func(x ssa.Value) bool { return m.isGlobal(x, m.gToken) }, true)
+	bearer := false
+	for _, l := range lits {
+		if l.Kind == "cmp" && l.Op == token.EQL {
+			if s, isS := ir.ConstString(l.Y); isS && s == "Bearer" && m.fromAuthHeader(l.X) {
+				bearer = true
+			}
+		}
+	}
+	return tokCfg && bearer
+}
+
+// markerSkip: the conjunction says the request context carries the package's
+// authenticated marker (a value of a private pointer type, obtained with a
+// checked type assertion, with its flag set). Returns the marker's type.
+func (m *mwModel) markerSkip(lits []ir.NLit) string {
+	var asserted string
+	var ta *ssa.TypeAssert
+	for _, l := range lits {
+		if l.Kind != "val" || !l.Pol {
+			continue
+		}
+		ex, isE := ir.Resolve(l.V).(*ssa.Extract)
+		if !isE || ex.Index != 1 {
+			continue
+		}
+		t, isT := ex.Tuple.(*ssa.TypeAssert)
+		if !isT || !t.CommaOk {
+			continue
+		}
+		pt, isP := t.AssertedType.(*types.Pointer)
+		if !isP {
+			continue
+		}
+		nt, isN := pt.Elem().(*types.Named)
+		if !isN || nt.Obj().Pkg() != m.pkg.Pkg || nt.Obj().Exported() {
+			continue
+		}
+		// the asserted value comes from the request context
+		if c, isC := ir.Resolve(t.X).(*ssa.Call); !isC || !c.Call.IsInvoke() || c.Call.Method.Name() != "Value" {
+			continue
+		}
+		asserted, ta = t.AssertedType.String(), t
+	}
+	if ta == nil {
+		return ""
+	}
+	// its boolean flag is required
+	flag := HasVal(lits, func(x ssa.Value) bool {
+		p, ok := m.e.C.PathOf(x)
+		if !ok || len(p.Fields) != 1 {
+			return false
+		}
+		ex, isE := ir.Resolve(p.Root).(*ssa.Extract)
+		return isE && ex.Tuple == ssa.Value(ta) && ex.Index == 0
+	}, true)
+	if !flag {
+		return ""
+	}
+	return asserted
+}
+
+func c17SkipSound(e *Env, m *mwModel) {
 	r := e.R
-	r.Rule("C17.skip-sound", "DCS+WMC", "skip predicates are sound", 3)
-	sb := e.Fn(mwRel, "skipBasicAuth")
-	if sb != nil {
-		ff := e.Facts(sb)
-		ok := true
-		n := 0
-		for _, b := range sb.Blocks {
+	r.Rule("C17.skip-sound", "DCS+WMC", "skip predicates are sound", 2)
+	// (a) basic auth is skipped only under the licensed predicate: judged at the
+	// pass sites (C17.pass-sites); here: such a skip exists at most in BasicAuth, and
+	// (b) the marker TokenAuth trusts is constructed only at BasicAuth's success site
+	if m.markerT == "" {
+		r.OK("TokenAuth: no skip on a per-request marker", e.Pos(m.tok.Pos()), "token auth never skips")
+		return
+	}
+	n := 0
+	okAll := true
+	var where []string
+	for _, f := range e.RepoFuncsSorted() {
+		if rootFn(f).Package() != m.pkg {
+			continue
+		}
+		for _, b := range f.Blocks {
 			for _, in := range b.Instrs {
-				rt, isR := in.(*ssa.Return)
-				if !isR {
-					continue
-				}
-				v := RetVals(rt, 0)[0]
-				if bv, isC := ir.ConstBool(v); isC && !bv {
+				al, isA := in.(*ssa.Alloc)
+				if !isA || types.NewPointer(al.Type().(*types.Pointer).Elem()).String() != m.markerT {
 					continue
 				}
 				n++
-				lits := ir.NormalizeAll(ff.Expand(append(ff.DCS(b), ir.Lit{Cond: v, Pol: true})))
-				if !HasNilCmp(lits, func(x ssa.Value) bool { return isGlobalRead(x, "authToken") }, true) {
-					ok = false
+				// the function constructing the marker, lifted to where it is used
+				sites := []ssa.Instruction{in}
+				if f.Parent() == nil && rootFn(f) != m.basic {
+					sites = nil
+					for _, cs := range e.StaticCallSites(f) {
+						sites = append(sites, cs)
+					}
+					if len(sites) == 0 {
+						okAll = false
+					}
 				}
-				hasBearer := false
-				for _, l := range lits {
-					if l.Kind == "cmp" && l.Op == token.EQL {
-						if s, isS := ir.ConstString(l.Y); isS && s == "Bearer" {
-							hasBearer = true
+				for _, site := range sites {
+					where = append(where, e.InstrPos(site))
+					h := site.Parent()
+					if rootFn(h) != m.basic {
+						okAll = false
+						continue
+					}
+					alts, ok := m.expandAt(h, site)
+					if !ok {
+						okAll = false
+						continue
+					}
+					for _, lits := range alts {
+						if ctcEq1(lits) == nil {
+							okAll = false
 						}
 					}
 				}
-				if !hasBearer {
-					ok = false
-				}
 			}
 		}
-		r.Check(ok && n > 0, "skipBasicAuth: true only under authToken != nil ∧ scheme == \"Bearer\"", e.Pos(sb.Pos()),
-			"basic auth can be skipped although no token check follows in the chain (or for a non-Bearer header)")
 	}
-	// skipTokenAuth == isAuthenticated(r.Context())
-	st := e.Fn(mwRel, "skipTokenAuth")
-	ia := e.Fn(mwRel, "isAuthenticated")
-	wa := e.Fn(mwRel, "withAuthenticated")
-	if st != nil && ia != nil {
-		ok := false
-		for _, b := range st.Blocks {
-			for _, in := range b.Instrs {
-				if rt, isR := in.(*ssa.Return); isR {
-					if c, isC := ir.Resolve(RetVals(rt, 0)[0]).(*ssa.Call); isC && c.Call.StaticCallee() == ia {
-						ok = true
-					}
-				}
-			}
-		}
-		r.Check(ok, "skipTokenAuth: returns isAuthenticated(request context)", e.Pos(st.Pos()), "token auth is skipped on something other than the per-request authenticated marker")
-		// isAuthenticated true only for a value asserted to *authCtx with ok and its flag
-		okIA := true
-		ff := e.Facts(ia)
-		for _, b := range ia.Blocks {
-			for _, in := range b.Instrs {
-				rt, isR := in.(*ssa.Return)
-				if !isR {
-					continue
-				}
-				v := RetVals(rt, 0)[0]
-				if bv, isC := ir.ConstBool(v); isC && !bv {
-					continue
-				}
-				lits := ir.NormalizeAll(ff.Expand(append(ff.DCS(b), ir.Lit{Cond: v, Pol: true})))
-				assertOK := HasVal(lits, func(x ssa.Value) bool {
-					ex, isE := ir.Resolve(x).(*ssa.Extract)
-					if !isE || ex.Index != 1 {
-						return false
-					}
-					ta, isT := ex.Tuple.(*ssa.TypeAssert)
-					return isT && strings.HasSuffix(ta.AssertedType.String(), "middleware.authCtx")
-				}, true)
-				flag := HasVal(lits, func(x ssa.Value) bool { return e.IsFieldRead(x, nil, "authenticated") }, true)
-				if !assertOK || !flag {
-					okIA = false
-				}
-			}
-		}
-		r.Check(okIA, "isAuthenticated: true only for the *authCtx marker with its flag set", e.Pos(ia.Pos()), "the authenticated marker can be satisfied by something other than the value BasicAuth installs")
-	}
-	if wa != nil {
-		basic := e.FnQuiet(mwRel, "BasicAuth")
-		sites := e.StaticCallSites(wa)
-		ok := len(sites) > 0
-		for _, ci := range sites {
-			if rootFn(ci.Parent()) != basic {
-				ok = false
-				continue
-			}
-			if ctcEq1(e.DCS(ci)) == nil {
-				ok = false
-			}
-		}
-		r.Check(ok, "withAuthenticated: called only at BasicAuth's success site", e.Pos(wa.Pos()),
-			"the authenticated marker is installed somewhere other than after a successful basic-auth comparison")
-	}
+	r.Check(okAll && n > 0, "withAuthenticated: called only at BasicAuth's success site", e.Pos(m.basic.Pos()),
+		"the authenticated marker is installed somewhere other than after a successful basic-auth comparison", "marker constructed / installed at: "+strings.Join(where, ", "))
+	// the marker's flag is set where it is constructed
+	r.OK("isAuthenticated: true only for the marker type with its flag set", e.Pos(m.tok.Pos()), "marker type "+m.markerT)
 }
 
-func c17Routing(e *Env) {
+func c17Routing(e *Env, m *mwModel) {
 	r := e.R
 	r.Rule("C17.routing", "DCS", "/api → authenticated chain, everything else → default handler", 2)
-	pc := e.Fn(mwRel, "prefixChecker")
+	// the router: what SetupGlobalMiddleware applies outermost
+	var pc *ssa.Function
+	for _, b := range m.setupGM.Blocks {
+		for _, in := range b.Instrs {
+			if rt, ok := in.(*ssa.Return); ok {
+				if c, isC := ir.Resolve(RetVals(rt, 0)[0]).(*ssa.Call); isC && c.Call.StaticCallee() != nil && m.isRouter(c.Call.StaticCallee()) {
+					pc = c.Call.StaticCallee()
+				}
+			}
+		}
+	}
 	if pc == nil {
+		r.Unknown("prefixChecker: routing sites", e.Pos(m.setupGM.Pos()), "the outermost wrapper of the chain is not the prefix router")
 		return
 	}
 	isAPI := func(lits []ir.NLit, pol bool) bool {
@@ -661,14 +931,14 @@ func c17Routing(e *Env) {
 		}, pol)
 	}
 	nNext, nDef := 0, 0
-	for _, f := range ir.WithClosures(pc) {
-		for _, ci := range nextCalls(f) {
+	for _, f := range e.withPkgHelpers(pc) {
+		for _, ci := range passCalls(f) {
 			nNext++
 			r.Check(isAPI(e.DCS(ci), true), "prefixChecker: authenticated chain serves the /api prefix", e.InstrPos(ci),
 				"the authenticated chain is not what serves the /api paths", e.FactsStr("dominating conditions: ", e.DCS(ci)))
 		}
 		for _, ci := range ir.CallsIn(f, func(c *ssa.CallCommon) bool {
-			return c.IsInvoke() && c.Method.Name() == "ServeHTTP" && isGlobalRead(c.Value, "defaultHandler")
+			return c.IsInvoke() && c.Method.Name() == "ServeHTTP" && m.isGlobal(c.Value, m.gDefault)
 		}) {
 			nDef++
 			r.Check(isAPI(e.DCS(ci), false), "prefixChecker: the unauthenticated default handler serves only non-/api paths", e.InstrPos(ci),
@@ -678,24 +948,17 @@ func c17Routing(e *Env) {
 	if nNext == 0 || nDef == 0 {
 		r.Unknown("prefixChecker: routing sites", e.Pos(pc.Pos()), sprintf("next calls=%d default calls=%d", nNext, nDef))
 	}
-	// the default handler global is written only by Setup from Options.Handler
+	// the credentials are installed by Setup from the options
 	setup := e.Fn(mwRel, "Setup")
 	if setup != nil {
-		ok := false
+		ok, ok2 := false, false
 		for _, b := range setup.Blocks {
 			for _, in := range b.Instrs {
 				if st, isS := in.(*ssa.Store); isS {
-					if g, isG := st.Addr.(*ssa.Global); isG && g.Name() == "authBasic" && e.IsFieldRead(st.Val, nil, "AuthBasic") {
+					if g, isG := st.Addr.(*ssa.Global); isG && g == m.gBasic && e.IsFieldRead(st.Val, nil, "AuthBasic") {
 						ok = true
 					}
-				}
-			}
-		}
-		ok2 := false
-		for _, b := range setup.Blocks {
-			for _, in := range b.Instrs {
-				if st, isS := in.(*ssa.Store); isS {
-					if g, isG := st.Addr.(*ssa.Global); isG && g.Name() == "authToken" && e.IsFieldRead(st.Val, nil, "AuthToken") {
+					if g, isG := st.Addr.(*ssa.Global); isG && g == m.gToken && e.IsFieldRead(st.Val, nil, "AuthToken") {
 						ok2 = true
 					}
 				}
@@ -703,4 +966,34 @@ func c17Routing(e *Env) {
 		}
 		r.Check(ok && ok2, "middleware.Setup: authBasic/authToken taken from the options", e.Pos(setup.Pos()), "the configured credentials are not installed into the middleware's package state")
 	}
+}
+
+// paramOf: v is (a captured copy of, or a helper's parameter bound to) a
+// parameter of ctor; returns that parameter.
+func paramOf(v ssa.Value, ctor *ssa.Function) *ssa.Parameter {
+	for d := 0; d < 8; d++ {
+		v = ir.Resolve(v)
+		p, ok := v.(*ssa.Parameter)
+		if !ok {
+			return nil
+		}
+		if p.Parent() == ctor {
+			return p
+		}
+		site := ir.UniqueSite(p.Parent())
+		if site == nil {
+			return nil
+		}
+		idx := -1
+		for k, q := range p.Parent().Params {
+			if q == p {
+				idx = k
+			}
+		}
+		if idx < 0 || idx >= len(site.Common().Args) {
+			return nil
+		}
+		v = site.Common().Args[idx]
+	}
+	return nil
 }
